@@ -3,7 +3,9 @@ package otto
 import (
 	"bytes"
 	"encoding/json"
+	"errors"
 	"fmt"
+	"strconv"
 	"strings"
 	"unicode/utf16"
 )
@@ -24,7 +26,17 @@ func builtinJSONParse(call FunctionCall) Value {
 	}
 
 	var root interface{}
-	err := json.Unmarshal([]byte(call.Argument(0).string()), &root)
+	text := []byte(call.Argument(0).string())
+	err := json.Unmarshal(text, &root)
+	var typeErr *json.UnmarshalTypeError
+	if errors.As(err, &typeErr) && strings.HasPrefix(typeErr.Value, "number") {
+		// The text is well formed (Unmarshal checks the syntax first) but holds a number beyond the
+		// range of a float64. That is a valid JSON text denoting an infinity (ES5 15.12.1.1, 8.5):
+		// decode again keeping the numbers as text, builtinJSONParseWalk converts them.
+		decoder := json.NewDecoder(bytes.NewReader(text))
+		decoder.UseNumber()
+		err = decoder.Decode(&root)
+	}
 	if err != nil {
 		panic(call.runtime.panicSyntaxError(err.Error()))
 	}
@@ -85,6 +97,10 @@ func builtinJSONParseWalk(ctx builtinJSONParseContext, rawValue interface{}) (Va
 		return stringValue(value), true
 	case float64:
 		return float64Value(value), true
+	case json.Number:
+		// On overflow ParseFloat returns the correctly signed infinity together with a range error.
+		number, _ := strconv.ParseFloat(string(value), 64)
+		return float64Value(number), true
 	case []interface{}:
 		arrayValue := make([]Value, len(value))
 		for index, rawValue := range value {
